@@ -702,11 +702,16 @@ EXPECT = ["C03.copula.slice_coarse_values_are_running_sums_of_the_coupled_increm
           "C03.copula.even_increment_copied_unchanged", "C03.copula.corner_probabilities_sum_to_one"]
 
 
+# reference replays run when the symbolic run of a harness ends in an exception of the code under analysis (see runner.run_check)
+ERROR_REPLAYS = {"1d.": (replay_1d, {"nl": 2, "nr": 2}), "slices.": (replay_slices, {}), "copula.slices": (replay_copula_slices, {}),
+                 "coupled.jumptimes": (replay_coupled_jumptimes, {})}
+
+
 def main(tier):
     bounds = {"1d": "coarse grids up to 2+1 points, 1 level and 1+1 points, 2 levels, infinite variation (quick); up to 3+3 points, 2 levels (thorough); finite/infinite activity and variation",
               "copula": "2-d, coarse 3x3 -> fine 5x5, every parity class of the fine increment",
               "outside": "CouplingSDE (its jump coupling is the one checked here; its Euler recursion is C16); 3-d coupling; vector-returning samplers"}
-    return run_check(PID, tier, harnesses(tier), expect=EXPECT, bounds=bounds,
+    return run_check(PID, tier, harnesses(tier), expect=EXPECT, bounds=bounds, error_replays=ERROR_REPLAYS,
                      assumptions=COMMON_ASSUMPTIONS + ["abstract measure / copula as in C01; fine cells of zero mass are never visited (the coupling divides by the cell mass)",
                                                        "the global coarse-rate identity in n-d follows from the local sub-cell identities by the tiling (C01) and additivity (C12) obligations"])
 
